@@ -146,7 +146,7 @@ class HostGrammar:
         self.nt = kterms
         self.Z = knts - 1
         ntid = {n: i for i, n in enumerate(g.nts)}
-        tid = {t: i for i, t in enumerate(g.ts)}
+        tid = {t: g.ts.index(t) for t in g.ts}      # (a name listed twice denotes its FIRST declaration)
         used = {ord(t) for t in g.ts}
         # unused host terms get bytes that are neither whitespace nor used: 1..8 are free of both
         spare = [b for b in (1, 2, 3, 4, 5, 6, 7, 8, 14, 15, 16, 17) if b not in used]
